@@ -33,6 +33,21 @@ Fixpoint all_offers (q : query) (jm : option jmap) (nr : nat) (A : list rec) : r
               do rs <- all_offers q jm (S nr) t; Ok (r ++ rs)
   end.
 
+(* the evaluation of one record up to its first failing match: rows offered before the failure, and the failure *)
+Fixpoint offers_until_error (q : query) (nr : nat) (a : rec) (ms : list binfo) : list (key * row) * option xerr :=
+  match ms with
+  | [] => ([], None)
+  | b :: t => match select_rows eval q (env_of nr a b 0) with
+              | Err e => ([], Some e)
+              | Ok r => let '(rs, e) := offers_until_error q nr a t in (r ++ rs, e)
+              end
+  end.
+Definition record_until_error (q : query) (jm : option jmap) (nr : nat) (a : rec) : list (key * row) * option xerr :=
+  match matches_of q jm nr a with
+  | Err e => ([], Some e)
+  | Ok ms => offers_until_error q nr a ms
+  end.
+
 Definition rows_or_nil {T} (r : res (list T)) : list T := match r with Ok l => l | Err _ => [] end.
 
 (* the same as one comprehension: for (nr, a) in enumerate(A, 1): for b in matches(a): rows(a, b) *)
@@ -80,14 +95,24 @@ Definition update_row (q : query) (asg : list (nat * expr)) (nr : nat) (a : rec)
   if ok then do r <- apply_assigns eval (env_of nr a b (S nu)) (map VA a) asg; Ok (r, S nu)
   else Ok (map VA a, nu).
 
-Fixpoint update_all (q : query) (asg : list (nat * expr)) (jm : option jmap) (nr nu : nat) (A : list rec) : res (list row) :=
+(* all emitted records, and the final value of NU *)
+Fixpoint update_all_nu (q : query) (asg : list (nat * expr)) (jm : option jmap) (nr nu : nat) (A : list rec) : res (list row * nat) :=
   match A with
-  | [] => Ok []
+  | [] => Ok ([], nu)
   | a :: t =>
       do p <- update_partner q jm (S nr) a;
       do rn <- update_row q asg (S nr) a (fst p) (snd p) nu;
-      do rs <- update_all q asg jm (S nr) (snd rn) t;
-      Ok (fst rn :: rs)
+      do rs <- update_all_nu q asg jm (S nr) (snd rn) t;
+      Ok (fst rn :: fst rs, snd rs)
+  end.
+Definition update_all (q : query) (asg : list (nat * expr)) (jm : option jmap) (nr nu : nat) (A : list rec) : res (list row) :=
+  do r <- update_all_nu q asg jm nr nu A; Ok (fst r).
+
+(* the failure of one record *)
+Definition update_record_error (q : query) (asg : list (nat * expr)) (jm : option jmap) (nr nu : nat) (a : rec) : option xerr :=
+  match update_partner q jm nr a with
+  | Err e => Some e
+  | Ok p => match update_row q asg nr a (fst p) (snd p) nu with Err e => Some e | Ok _ => None end
   end.
 
 (* the value field i of the emitted record has after the assignments: the last assignment to i wins,
